@@ -704,6 +704,9 @@ func runPush(t *testing.T, tape *Tape, w *World, variant string, steps int, out 
 	for _, p := range ps.reqs {
 		r.Stats[fmt.Sprintf("http_status_%d", p.status)]++
 	}
+	if sqlArmed && !sqlDone {
+		S.Disarm() // armed but never reached: it must not hit the shutdown or the epilogue's own requests
+	}
 	pusherTask.cancel()
 	c.finish()
 	// stop the service (idempotent) outside the scheduler
